@@ -20,7 +20,9 @@ IMPORTS = "From PV Require Import C06.Model C06.Spec.\n"
 NEG = "-inf"
 WIDTH = {"torch.uint8": 0, "torch.int16": 1, "torch.int32": 2, "torch.int64": 3}
 THEOREMS = ["c06_validator_sound", "c06_lookup_is_katz", "c06_one_index_is_katz", "c06_per_element_index_is_katz",
-            "c06_full_is_katz_any_chunk", "c06_chunked_eq_pointwise"]
+            "c06_call_with_index_is_katz", "c06_call_with_index_vector_is_katz", "c06_call_full_is_katz",
+            "c06_full_is_katz_any_chunk", "c06_chunked_eq_pointwise", "c06_batch_elements_independent",
+            "c06_reload_same_partial"]
 
 warnings.filterwarnings("ignore")
 
@@ -113,8 +115,21 @@ def prob_dicts(case):
 
 
 def build(case):
+    import logging
     from pydrobert.torch.modules import LookupLanguageModel
-    return LookupLanguageModel(case["V"], case["sos"], prob_dicts(case))
+    opt = case.get("opt", 0)  # 0 plain, 1 destructive=True, 2 logger, 3 deprecated prob_list keyword
+    pd = prob_dicts(case)
+    if opt == 1:
+        return LookupLanguageModel(case["V"], case["sos"], pd, destructive=True)
+    if opt == 2:
+        lg = logging.getLogger("verif.c06")
+        lg.addHandler(logging.NullHandler())
+        lg.propagate = False
+        lg.setLevel(logging.INFO)
+        return LookupLanguageModel(case["V"], case["sos"], pd, logger=lg)
+    if opt == 3:
+        return LookupLanguageModel(case["V"], case["sos"], prob_list=pd)
+    return LookupLanguageModel(case["V"], case["sos"], pd)
 
 
 def bufs_of(lm):
@@ -285,7 +300,7 @@ def gen_table(rng):
             ents.append([list(k), p, 0 if n == N else b])
         rng.shuffle(ents)
         dicts.append(ents)
-    case = dict(kind="lm", V=V, sos=sos, dicts=dicts)
+    case = dict(kind="lm", V=V, sos=sos, dicts=dicts, opt=rng.choice([0, 0, 0, 1, 1, 2, 3]))
     case["queries"] = gen_queries(rng, case)
     return case
 
@@ -429,7 +444,7 @@ def table_terms(case, res):
     return [t1, t2, t3]
 
 
-def run_table(case, deep=False):
+def run_table(case, meta=True):
     """build, reload, query"""
     res = dict(build="ok", outs=[], meta=[], inferred=None)
     try:
@@ -451,7 +466,8 @@ def run_table(case, deep=False):
     for q, o in zip(case["queries"], res["outs"]):
         if query_valid(q) and isinstance(o, str):
             res["meta"].append(("valid query raised " + o, q))
-    res["meta"] += metamorphic(case, lm, lm2)
+    if meta:
+        res["meta"] += metamorphic(case, lm, lm2)
     return res
 
 
@@ -496,20 +512,6 @@ def judge_table(chk, case, res, flags):
                 break
         rec["what"] = "next-token log-probabilities differ from the back-off recursion on the table"
         return rec, True
-    # outputs explored so far satisfy the recursion; look harder before giving up
-    deep = dict(case, queries=all_histories_queries(case, min(len(case["dicts"]) + 1, 4)))
-    dres = run_table(deep)
-    if dres["build"] == "ok" and not dres["meta"]:
-        dt = table_terms(deep, dres)
-        dflags = coq_eval_bools(chk.workdir, IMPORTS, dt, tag="deep")
-        if not dflags[2]:
-            rec["case"] = deep
-            rec["what"] = "next-token log-probabilities differ from the back-off recursion on the table (found by the all-histories search)"
-            return rec, True
-    elif dres["meta"]:
-        rec["case"], rec["metamorphic"] = deep, dres["meta"][:5]
-        rec["what"] = "implementation breaks a relation the property states: " + str(dres["meta"][0][0])
-        return rec, True
     rec["what"] = ("the implementation's buffers / shape constants / outputs no longer match the model "
                    "(or the validator rejects the buffers) but every explored output equals the recursion")
     return rec, False
@@ -533,15 +535,35 @@ def lm_shrink_candidates(case):
             nq = dict(q, hist=q["hist"][:-1])
             yield dict(case, queries=qs[:qi] + [nq] + qs[qi + 1:])
         if q["B"] > 1 and q["idx"] is None:
-            nq = dict(q, hist=[r[:-1] for r in q["hist"]], B=q["B"] - 1)
-            yield dict(case, queries=qs[:qi] + [nq] + qs[qi + 1:])
+            h = q["B"] // 2
+            for lo, hi in ((0, h), (h, q["B"]), (0, q["B"] - 1)):
+                nq = dict(q, hist=[r[lo:hi] for r in q["hist"]], B=hi - lo)
+                yield dict(case, queries=qs[:qi] + [nq] + qs[qi + 1:])
 
 
-def lm_fails(chk, case):
-    res = run_table(case)
-    if res["build"] != "ok" or res["meta"]:
-        return True
-    return not all(coq_eval_bools(chk.workdir, IMPORTS, table_terms(case, res), tag="shr"))
+def evaluate(chk, case, meta=True, tag="ev"):
+    res = run_table(case, meta=meta)
+    flags = coq_eval_bools(chk.workdir, IMPORTS, table_terms(case, res), tag=tag)
+    return res, flags
+
+
+def is_concrete(res, flags):
+    """a failing input against the property itself (not merely against the model)"""
+    return res["build"] != "ok" or bool(res["meta"]) or not flags[2]
+
+
+def lm_fails(chk, case, concrete_only):
+    res, flags = evaluate(chk, case, tag="shr")
+    if concrete_only:
+        return is_concrete(res, flags)
+    return is_concrete(res, flags) or not all(flags)
+
+
+def deepen(chk, case):
+    """no explored output is wrong: query ALL short histories before giving up"""
+    deep = dict(case, queries=all_histories_queries(case, min(len(case["dicts"]) + 1, 4)))
+    res, flags = evaluate(chk, deep, meta=False, tag="deep")
+    return deep if is_concrete(res, flags) else None
 
 
 # ----------------------------------------------------------------------------------------
@@ -636,8 +658,8 @@ def gen_arpa(rng, malformed=False):
             hi = [i for i in body if len(lines[i].split()) == N + 1]
             if hi:
                 lines[hi[-1]] = lines[hi[-1]] + " -0.5"
-    return dict(kind="arpa", words=words, text="\n".join(lines) + "\n", base_e=rng.random() < 0.4,
-                with_ids=rng.random() < 0.8, from_path=rng.random() < 0.25)
+    return dict(kind="arpa", words=words, text="\n".join(lines) + "\n", base_e=rng.choice([False, False, True, True, None]),
+                with_ids=rng.random() < 0.8, from_path=rng.random() < 0.25, logger=rng.random() < 0.2)
 
 
 def classify(line, word2id, strict=True):
@@ -698,7 +720,14 @@ def run_arpa(chk, case):
             src = path
         else:
             src = io.StringIO(case["text"])
-        pd = parse_arpa_lm(src, token2id=w2i if case["with_ids"] else None, to_base_e=case["base_e"])
+        kw = dict()
+        if case.get("logger"):
+            import logging
+            lg = logging.getLogger("verif.c06")
+            lg.addHandler(logging.NullHandler())
+            lg.propagate = False
+            kw["logger"] = lg
+        pd = parse_arpa_lm(src, token2id=w2i if case["with_ids"] else None, to_base_e=case["base_e"], **kw)
     except Exception as e:  # noqa: BLE001
         return "exc:" + exc_kind(e)
     out = []
@@ -755,23 +784,29 @@ def huge_table_check(chk, rng):
     toks = list(range(V)) + [case["sos"]]
     pairs = [list(k) for k in list(ks)[:40]] + [[rng.choice(toks), rng.choice(toks)] for _ in range(40)]
     hist = [[p[0] for p in pairs], [p[1] for p in pairs]]
-    full = lm(ht(hist, len(pairs)))
-    lm2 = reload(case, lm, False)
-    ok = torch.equal(lm2(ht(hist, len(pairs))), full)
-    for bi, p in enumerate(pairs):
-        for i in range(3):
-            ctx = py_context(2, case["sos"], [hist[t][bi] for t in range(i)])
-            vs = rng.sample(range(V), 12) + ([p[1]] if 0 <= p[1] < V else [])
-            for v in vs:
-                if enc(full[i, bi, v].item()) != py_katz(tab, ctx, v):
-                    ok = False
+    ok, why = True, ""
+    try:
+        full = lm(ht(hist, len(pairs)))
+        lm2 = reload(case, lm, False)
+        if not torch.equal(lm2(ht(hist, len(pairs))), full):
+            ok, why = False, "reloaded model differs"
+        for bi, p in enumerate(pairs):
+            for i in range(3):
+                ctx = py_context(2, case["sos"], [hist[t][bi] for t in range(i)])
+                vs = rng.sample(range(V), 12) + ([p[1]] if 0 <= p[1] < V else [])
+                for v in vs:
+                    if enc(full[i, bi, v].item()) != py_katz(tab, ctx, v):
+                        ok, why = False, "history %r token %d: got %r, recursion gives %r" % (
+                            ctx, v, enc(full[i, bi, v].item()), py_katz(tab, ctx, v))
+    except Exception as e:  # noqa: BLE001
+        ok, why = False, "exception " + exc_kind(e) + ": " + str(e)[:200]
     chk.extra["huge_table"] = dict(bigrams=nbig, max_offset=max(b["offsets"]), offsets_width=b["ow"], ids_width=b["iw"],
                                    agrees_with_python_reference=ok,
                                    note="too large for vm_compute: checked against the harness's Python recursion only")
     chk.note_case(dict(kind="huge", nbig=nbig, V=V, sos=case["sos"]), True, "huge")
     if not ok:
         chk.report({"case": dict(kind="huge", nbig=nbig, V=V, sos=case["sos"], seed=chk.seed),
-                    "what": "large table (offsets beyond int16): outputs differ from the back-off recursion / reload differs"})
+                    "what": "large table (offsets beyond int16): " + why})
 
 
 # ----------------------------------------------------------------------------------------
@@ -846,6 +881,7 @@ def run(chk, cases=None):
             chk.count("sos=" + ("in" if 0 <= case["sos"] < case["V"] else "out"))
             if res["build"] == "ok":
                 chk.count("offsets_width=%d" % res["bufs"]["ow"])
+                chk.count("ctor_option=%d" % case.get("opt", 0))
                 nclosed = res["bufs"]["logps"].count(NEG)
                 chk.count("nodes_with_-inf=" + ("0" if nclosed == 0 else "some"))
                 for q, o in zip(case["queries"], res["outs"]):
@@ -864,7 +900,7 @@ def run(chk, cases=None):
             terms.append(t)
             owners.append((ci, 0))
             chk.note_case(case, True, stream)
-            chk.count("arpa=" + ("raises" if isinstance(out, str) else "ok") + ("/base-e" if case["base_e"] else "/base-10"))
+            chk.count("arpa=" + ("raises" if isinstance(out, str) else "ok") + ("/base-e" if case["base_e"] else "/base-10" if case["base_e"] is False else "/base-default"))
     flags = coq_eval_bools(chk.workdir, IMPORTS, terms)
     by_case = {}
     for (ci, k), ok in zip(owners, flags):
@@ -874,15 +910,23 @@ def run(chk, cases=None):
            or (case["kind"] == "lm" and (results[ci]["meta"] or results[ci]["build"] != "ok"))]
     chk.extra["model_disagreements"] = len(bad)
     concrete, pending = 0, []
-    for ci in bad[:6]:
+    for ci in bad[:8]:
         case, _ = cases[ci]
+        if concrete >= 3:
+            break
         if case["kind"] == "lm":
-            if not replaying:
-                case = shrink(case, lambda c: lm_fails(chk, c), lm_shrink_candidates, budget=30)
-            res = run_table(case)
-            fl3 = coq_eval_bools(chk.workdir, IMPORTS, table_terms(case, res), tag="judge")
-            rec, conc = judge_table(chk, case, res, fl3)
-            if conc:
+            res, fl3 = evaluate(chk, case, tag="judge")
+            conc = is_concrete(res, fl3)
+            if not conc and not replaying and len(pending) < 3:
+                deep = deepen(chk, case)
+                if deep is not None:
+                    case, conc = deep, True
+            if not replaying and (conc or not pending):
+                case = shrink(case, lambda c, co=conc: lm_fails(chk, c, co), lm_shrink_candidates,
+                              budget=16 if concrete + len(pending) == 0 else 6)
+            res, fl3 = evaluate(chk, case, tag="judge2")
+            rec, conc2 = judge_table(chk, case, res, fl3)
+            if conc2:
                 concrete += 1
                 chk.report(rec)
             else:
